@@ -323,7 +323,8 @@ def branch_sort_key(name):
     for ch in re.split(r"[/._\-\s]+", name):
         if ch == "":
             continue
-        items.append((0, int(ch), "") if ch.isdigit() else (1, 0, ch))
+        # (a number is what is written in decimal digits - of whatever script)
+        items.append((0, int(ch), "") if ch.isdecimal() else (1, 0, ch))
     return (0, items)
 
 
